@@ -101,7 +101,7 @@ type Exec struct {
 	seqHash    uint64 // order-sensitive hash of the executed operation sequence (determinism check)
 	envSeq     int
 	cleanup    []func()
-	IdleFires  int // times a timer/deadline fired for free because all running threads were polling in a loop
+	IdleFires  int      // times a timer/deadline fired for free because all running threads were polling in a loop
 	Stack      string   // stack of the panicking thread (not part of Status: addresses vary)
 	Blocked    []string // descriptions of the threads that were blocked when a deadlock was declared
 	fp         uint64
